@@ -141,7 +141,15 @@ class SyncedDict(SyncedCollection, MutableMapping):
                             self._validate({key: new_value})
                         self._data[key] = self._from_base(new_value, parent=self)
                     else:
-                        if new_value == existing:
+                        # Equal values of different types (1 == True == 1.0) are
+                        # not the same data, and equal containers may still differ
+                        # in the types of their leaves, so only identical objects
+                        # and equal scalars of the same type can be skipped.
+                        if new_value is existing or (
+                            type(new_value) is type(existing)
+                            and _sc_resolver.get_type(existing) != "SYNCEDCOLLECTION"
+                            and new_value == existing
+                        ):
                             continue
                         # A value of None must replace the existing entry;
                         # _update(None) means "no data" and would ignore it.
